@@ -109,11 +109,11 @@ func apiString(pk *types.Package) string {
 	q := func(p *types.Package) string { return p.Path() }
 	for _, name := range scope.Names() {
 		o := scope.Lookup(name)
-		lines = append(lines, types.ObjectString(o, q))
+		lines = append(lines, objAPI(o, q))
 		if tn, ok := o.(*types.TypeName); ok {
 			if nt, ok := tn.Type().(*types.Named); ok {
 				for i := 0; i < nt.NumMethods(); i++ {
-					lines = append(lines, types.ObjectString(nt.Method(i), q))
+					lines = append(lines, objAPI(nt.Method(i), q))
 				}
 				if st, ok := nt.Underlying().(*types.Struct); ok {
 					lines = append(lines, st.String())
@@ -123,4 +123,29 @@ func apiString(pk *types.Package) string {
 	}
 	sort.Strings(lines)
 	return strings.Join(lines, "\n")
+}
+
+// objAPI renders an object's type without parameter names (renaming a parameter does not change the API).
+func objAPI(o types.Object, q types.Qualifier) string {
+	if fn, ok := o.(*types.Func); ok {
+		sig := fn.Type().(*types.Signature)
+		var parts []string
+		tuple := func(t *types.Tuple) string {
+			var xs []string
+			for i := 0; i < t.Len(); i++ {
+				xs = append(xs, types.TypeString(t.At(i).Type(), q))
+			}
+			return "(" + strings.Join(xs, ",") + ")"
+		}
+		recv := ""
+		if sig.Recv() != nil {
+			recv = types.TypeString(sig.Recv().Type(), q) + "."
+		}
+		parts = append(parts, "func "+recv+fn.Name()+tuple(sig.Params())+tuple(sig.Results()))
+		if sig.Variadic() {
+			parts = append(parts, "variadic")
+		}
+		return strings.Join(parts, " ")
+	}
+	return types.ObjectString(o, q)
 }
